@@ -60,9 +60,13 @@ NameStep ==
      IF e.from_name = want /\ e.try_from = want THEN TRUE
      ELSE Emit([what |-> "name", s |-> e.s, observed |-> <<e.from_name, e.try_from>>, expected |-> want])
   /\ j' = j + 1 /\ UNCHANGED phase
+(* the seeded sweep of pseudo-random strings outside the registry: none may resolve *)
+Random == (SelectSeq(Dump, LAMBDA e : e.kind = "random_names"))[1]
 Finish ==
   /\ phase = "names" /\ j > Len(TLCGet(3))
-  /\ Emit([what |-> "done", rows |-> Len(TLCGet(2)), names |-> Len(TLCGet(3))])
+  /\ IF Random.hits = <<>> THEN TRUE
+     ELSE Emit([what |-> "name", s |-> Random.hits[1].s, observed |-> <<Random.hits[1].id, Random.hits[1].id>>, expected |-> "none"])
+  /\ Emit([what |-> "done", rows |-> Len(TLCGet(2)), names |-> Len(TLCGet(3)), random |-> Random.queries])
   /\ phase' = "done" /\ UNCHANGED j
 Next == TableStep \/ RowStep \/ RowsDone \/ NameStep \/ Finish
 =============================================================================
